@@ -280,6 +280,23 @@ def run(prog, R):
                 ok = rng[0] == "adt" and rng[2][0] == ("field", ("arg", 1, "self"), 1) and rng[2][1] == ("field", ("bin", "AddWithOverflow", ("field", ("arg", 1, "self"), 1), ("arg", 3, "n_tokens")), 0) \
                     and st[0][1] == ("field", ("bin", "AddWithOverflow", ("field", ("arg", 1, "self"), 1), ("arg", 3, "n_tokens")), 0)
         R.ob("C02.2-count-identities", "Builder::do_token slices and advances by the same n_tokens", ok, dt.at, det)
+    et_ = prog.body("oq3_parser::shortcuts::Builder::eat_trivias")
+    if et_ is None:
+        R.ob("ANCHOR", "oq3_parser::shortcuts::Builder::eat_trivias", False)
+    else:
+        # every trivia token that to_input dropped is put back: the loop stops only at the end of the table or at a
+        # token that is_trivia rejects, and emits each token it passes (no further test - e.g. on the comment's
+        # text - may end the run early: the parser never saw those tokens, so nobody else emits them)
+        PRIM2_ = ("Builder::do_token", "SyntaxKind::is_trivia", "LexedStr::kind", "LexedStr::len")
+        tests_ = set()
+        for p_ in SymExec(prog, et_, max_visits=2, max_paths=500, inline=lambda c: c.startswith("oq3_parser::shortcuts::") and not c.endswith(PRIM2_) and str(prog.body(c).vis) != "pub").paths():
+            for c_ in p_.conds:
+                if c_[0] == "switch":
+                    sh_ = show(deep_strip(c_[1]))
+                    tests_.add("position < len" if ("len(" in sh_ and ("Lt(" in sh_ or "Ge(" in sh_ or "Le(" in sh_ or "Gt(" in sh_)) else ("is_trivia" if sh_.startswith("is_trivia(") else sh_[:70]))
+        extra_ = sorted(t_ for t_ in tests_ if t_ not in ("position < len", "is_trivia"))
+        R.ob("C02.3-trivia", "eat_trivias stops only at the end or at a non-trivia token", not extra_ and {"position < len", "is_trivia"} <= tests_, et_.at,
+             f"tests in the loop: {sorted(tests_)}" if not extra_ else f"eat_trivias also branches on {extra_}: a trivia token can be left behind although to_input dropped it from the parser's input, so it ends up in no leaf (or under a shifted one)")
     bt = R.anchor(prog, "oq3_parser::shortcuts::Builder::token")
     if bt:
         # private helpers of Builder (other than the two primitives) are looked into, so that a shared prologue
